@@ -69,7 +69,7 @@ def _gen_prop(pid):
         if broken is None:
             return
         rows, hextra = gen.run_harness(family, res.tier, res.seed, modes)
-        ev = gen.evaluate(rows, model_ok, aspects)
+        ev = gen.evaluate(rows, model_ok, aspects, exact_nest_paths=(pid == "C07"))
         pairs = [(r["decl_sexp"], v, o) for r in rows if r.get("obs") for v, o in zip(r["values"], r["obs"])]
         if pid == "C19":       # the valid path is what is measured
             nontriv = len(set((d, v) for d, v, o in pairs if o == "nil"))
